@@ -30,7 +30,7 @@ CLAIMS["C03"] = ("other", "interprocedural taint (unprotected guards) + must-pas
     "touch of the retired object or its lock (this is what makes collect/FromIterator safe); (M2) at each of the 25 retire sites an unlink "
     "write on the object's own container precedes the retire on every value-flow path; (M3) immediate frees only on private/exclusively "
     "owned objects; (M4) copy-loop/retire-loop agreement; (M6) the forwarding marker is handed out only after next_table is set. Each is a necessary condition: breaking one yields a concrete use-after-free. "
-    "A tree bin retired whole does not also have its nodes' values retired one by one (M9); a removed or replaced value is retired exactly once (M10 = O4). Not decided: that references stay *unchanged*, the collector's own correctness, value-level aliasing beyond copies.",
+    "A tree bin retired whole does not also have its nodes' values retired one by one (M9); a removed or replaced value is retired exactly once (M10 = O4). Not decided: that references stay *unchanged*, the collector's own correctness, value-level aliasing beyond copies. Links of nodes private to the body do not count as unlinks (M2).",
     "DESIGN.md §4 C03", TRUST)
 
 CLAIMS["C07"] = ("other", "null-check contradiction rule (value-chain path search) + private-target rule over MIR",
@@ -41,7 +41,7 @@ CLAIMS["C07"] = ("other", "null-check contradiction rule (value-chain path searc
     "(T5) a non-null successor, the first node of a tree bin and the head of a list bin are always yielded, whatever kind of entry they are; "
     "(T6) the links of a node being removed are not written. All are necessary for weak "
     "consistency. Not decided: termination and exactly-once yield across nested resizes (index arithmetic over run-time table lengths), and "
-    "'never yields a pair that was not in the map'.",
+    "'never yields a pair that was not in the map'. The tallies of transfer's splitting walk count the nodes, so no node is both kept in a re-used bin and copied (T7 = O11).",
     "DESIGN.md §4 C07", TRUST + " Four reviewed T1 exceptions are frozen by (function, field) with their invariant in vf/rules_c07.py.")
 
 CLAIMS["C14"] = ("other", "affine abstract interpretation over MIR + who-may-call / dominance rules",
@@ -52,14 +52,14 @@ CLAIMS["C14"] = ("other", "affine abstract interpretation over MIR + who-may-cal
     "pointer is only ever replaced by a fresh or doubled table; the constants are as stated; capacity 0 allocates nothing; reserve(additional) presizes for len() + additional; "
     "treeify_bin (which doubles a small table) is called only by an inserting operation; add_count leaves its resize loop only with count < size_ctl or for a reason "
     "independent of the count and of the resize hint (so no insert returns with the count at or above the threshold for a removal to act on). The bin length put reports is the number of nodes walked (K11). Not decided: "
-    "'holds c well-distributed entries' (hash distribution) and power-of-two lengths (Q3, under C05).",
+    "'holds c well-distributed entries' (hash distribution) and power-of-two lengths (Q3, under C05). The count compared with the threshold is adjusted exactly once per link / unlink (K12 = Q1).",
     "DESIGN.md §4 C14", TRUST + " x >> k is modelled as x/2^k (exact for the power-of-two lengths it is applied to).")
 
 CLAIMS["C19"] = ("other", "panic-site reachability + delegation (who-may-call) rules over MIR, features serde,rayon",
     "Clauses: (V1) in the serde visitors no panic-family call is reachable after input has been pulled from the deserialiser, so a "
     "repeated key or element yields a value, not a panic; (V2) the visitors build the collection through exported, guard-checked functions "
     "with the new collection's own guard; (V3) the rayon impls only delegate to exported functions and sibling impls, with a per-worker guard "
-    "of the same map; (V4) every entry pulled from the deserialiser reaches an insert before the next pull or the return; (V5) no filtering, deduplicating, truncating or searching operation stands between the input and the insert in the rayon and serde entry points; (V6) a visitor inserts only into a collection it created itself, or clears the one it was handed first. Not decided: serialise/deserialise round-trip equality and 'same key set as sequential insertion' (run-time values).",
+    "of the same map; (V4) every entry pulled from the deserialiser reaches an insert before the next pull or the return; (V5) no filtering, deduplicating, truncating or searching operation stands between the input and the insert in the rayon and serde entry points; (V6) a visitor inserts only into a collection it created itself, or clears the one it was handed first. Not decided: serialise/deserialise round-trip equality and 'same key set as sequential insertion' (run-time values). Short-circuiting consumers (any, all, try_*) count as item-dropping operations (V5).",
     "DESIGN.md §4 C19", TRUST + " serde/rayon adaptor internals are outside the analysis.")
 
 CLAIMS["C01"] = ("other", "MIR path rules: lock-region dataflow, edge dominance, must-pass-through, delegation rule",
@@ -68,25 +68,25 @@ CLAIMS["C01"] = ("other", "MIR path rules: lock-region dataflow, edge dominance,
     "carried into a section); bin contents written only under the bin lock, on private nodes, by the empty-bin CAS or in teardown (tree "
     "helpers lifted to call sites); both new bins published before the forwarding marker; writers that meet a forwarding marker retry in a "
     "current table; set and pinned-reference facades are single delegations with guards paired to their collections; readers descend a tree bin only under the read lock and the write lock is taken only from a lock word without readers; a node's value is touched / a node reported found only after its key compared equal; a bin is read at the index computed for that very table. Each clause is a "
-    "necessary condition of the property: a tree violating it admits a concrete lost/duplicated/misattributed update. A new tree-bin entry is published in the bin's list before it is linked into the tree (L13).",
+    "necessary condition of the property: a tree violating it admits a concrete lost/duplicated/misattributed update. A new tree-bin entry is published in the bin's list before it is linked into the tree (L13). A writer whose head re-validation fails goes back to its retry loop instead of returning (L14).",
     "DESIGN.md §4 C01", TRUST + " Lock regions are intraprocedural (guard locals); a lock handed across calls would be INCONCLUSIVE.")
 CLAIMS["C08"] = ("other", "MIR region rules (callback, read and write inside one validated lock region) + signature predicate",
     "The lock-based atomicity argument of compute_if_present, on both arms and every path: callback only after head re-validation inside "
     "the bin-lock region; the value it receives is loaded inside that region; the write applying its result happens before the guard is "
     "dropped, for Some and for None; FnOnce bound on every facade; every writer of a bin (not only compute_if_present) re-validates under the lock and carries nothing read before it into the section. Together with C01-L1/L2 (all other writers of the bin take the same "
-    "lock) nothing can take effect on the key between the read and the write. Not decided: concrete racing histories.",
+    "lock) nothing can take effect on the key between the read and the write. Not decided: concrete racing histories. compute_if_present retries when the bin it locked is no longer the head (A7 = L14).",
     "DESIGN.md §4 C08", TRUST)
 CLAIMS["C13"] = ("other", "MIR argument-provenance and edge-dominance rules",
     "Premises of compare-and-remove: retain hands replace_node the very value pointer the predicate saw (Some), retain_force hands None; "
     "replace_node loads the stored pointer under the validated bin lock, compares by pointer identity, and unlink/retire are dominated "
-    "by the true edge; predicates run under no lock; the retain / retain_force methods of the reference wrappers and of the set forward to the map method of the same name. Not decided: equality with std retain on concrete histories.",
+    "by the true edge; predicates run under no lock; the retain / retain_force methods of the reference wrappers and of the set forward to the map method of the same name. Not decided: equality with std retain on concrete histories. The removal routine retries when the bin it locked is no longer the head (N5 = L14).",
     "DESIGN.md §4 C13", TRUST)
 CLAIMS["C18"] = ("other", "MIR unwind-edge analysis (cleanup paths, drop flags by reaching definitions) + call-graph effect rule",
     "Whole structural content: every callback that runs while a bin lock is (or may be) held unwinds through the Drop of a lock guard on "
     "every cleanup path; no user code (directly or via callees) runs inside the manually released tree write-lock region; retain "
     "predicates run under no lock; no shared write or retire precedes the callback inside its critical section, so a panic leaves the "
     "entry as found; no callback runs between an unlink and its count adjustment; no lock acquisition propagates poisoning (a std lock whose "
-    "LockResult is unwrapped would make every later operation panic after one panicking callback); thread-local state changed around a callback is restored on the unwind path too. Unwinding out of a caller-supplied closure retires, frees and writes nothing (U8); a panic that is caught (catch_unwind) and re-raised later is followed by no write, retire, unlink or count adjustment either (U9). Not decided: observable state of later operations on concrete histories.",
+    "LockResult is unwrapped would make every later operation panic after one panicking callback); thread-local state changed around a callback is restored on the unwind path too. Unwinding out of a caller-supplied closure retires, frees and writes nothing (U8); a panic that is caught (catch_unwind) and re-raised later is followed by no write, retire, unlink or count adjustment either (U9). Not decided: observable state of later operations on concrete histories. No value dropped while unwinding out of a callback has a Drop impl that can panic (U10).",
     "DESIGN.md §4 C18", TRUST)
 
 CLAIMS["C16"] = ("proof", "signature (lifetime) rule over the type-checked API + compile-fail witnesses with compiling twins judged by rustc",
@@ -118,7 +118,7 @@ CLAIMS["C10"] = ("other", "MIR path rules (edge dominance, must-pass-through) + 
     "next_table, swap table, retire old, store 3/4 threshold) is gated by it, ordered and complete; the next table is exactly twice as long; "
     "initiation is guarded by len < 2^30; the size_ctl bit layout holds for the evaluated constants; every won initiator/helper ticket leads "
     "to transfer and transfer gives the ticket back on every exit; every joining site refuses to join on the same five atoms (sign, same generation stamp, full, finishing, no strides left); stride claiming makes progress (fresh positive index, strictly lower new value, index steps by one); the elected finisher sweeps the whole old table (i := len, decrement loop re-entered) before publishing; a bin is migrated only under its lock after re-validating the head; an initiator's table belongs to the size_ctl generation of its ticket. Not "
-    "decided: 'every old bin migrated exactly once' and non-overlap of generations over all schedules (needs interleaving semantics). An old bin is marked as forwarded only after both halves are in the new table (Z14 = L3).",
+    "decided: 'every old bin migrated exactly once' and non-overlap of generations over all schedules (needs interleaving semantics). An old bin is marked as forwarded only after both halves are in the new table (Z14 = L3). add_count re-reads the count after every resize it took part in (Z16).",
     "DESIGN.md §4 C10", TRUST)
 CLAIMS["C11"] = ("other", "lock-order graph over the resolved call graph + acquire/release pairing and park-protocol path rules",
     "Clauses; fair-schedule liveness itself is NOT decided. Decided: at most one bin lock is ever held (no acquisition reachable through "
@@ -133,7 +133,7 @@ CLAIMS["C05"] = ("other", "ESP path-sensitive typestate over MIR + provenance (p
     "Clauses: the entry count is adjusted exactly once per link (put: won empty-bin CAS, append, tree insert) and per unlink "
     "(compute_if_present, replace_node; clear per walked node), on every feasible path -- infeasible paths pruned by tracking the flags the "
     "code branches on; one finisher publishes a resize and clears the resizing state; every table length has power-of-two provenance; transfer splits a bin by the bit hash & n into index i (zero half) and i + n; the traverser yields every successor / tree-bin first node / list head that is there (Q8 = T5 of C07). "
-    "Not decided: iteration = lookup as a whole, entry placement (index i vs i+n), absence of duplicate keys, 'no forwarding marker left behind'.",
+    "Not decided: iteration = lookup as a whole, entry placement (index i vs i+n), absence of duplicate keys, 'no forwarding marker left behind'. The entry counter changes only by fetch_add / fetch_sub of the delta handed to add_count (Q9).",
     "DESIGN.md §4 C05", TRUST + " ESP tracks the named bool/Option flag locals of each body; an untracked correlation would show up as a reported path.")
 
 CLAIMS["C04"] = ("other", "ownership typestate over MIR: must-consume rules + ESP path-sensitive typestate",
@@ -144,7 +144,7 @@ CLAIMS["C04"] = ("other", "ownership typestate over MIR: must-consume rules + ES
     "every retry; a removed/replaced value is retired exactly once (callee iff drop_value and no untreeify, else caller); teardown frees "
     "nodes, values, tree bins, the table and the forwarding node; a private list of fresh tree nodes is handed to exactly one of TreeBin::new / "
     "drop_tree_nodes on every path. A tree bin retired whole keeps its values to itself (O10); every iteration of a retire walk retires the node under its cursor (O8); a removal acts only after the head was re-validated under the lock (O9 = L1). Not decided: drop counts over all concurrent histories, 'dropped after "
-    "the last guard' (that is seize's contract).",
+    "the last guard' (that is seize's contract). The tallies of transfer's splitting walk count the nodes copied (O11).",
     "DESIGN.md §4 C04", TRUST)
 
 NOT_APPLICABLE = {
